@@ -481,7 +481,8 @@ func stringContainsCTLByte(s []byte) bool {
 func splitHostURI(host, uri []byte) ([]byte, []byte, []byte) {
 	scheme, path := getScheme(uri)
 
-	if scheme == nil {
+	if scheme == nil || !bytes.HasPrefix(path, bytestr.StrSlashSlash) {
+		// no scheme, or "scheme:" not followed by "//" (e.g. "a:b"): not an absolute URI
 		return bytestr.StrHTTP, host, uri
 	}
 
